@@ -422,7 +422,11 @@ func writeEvidence(o RunOpts, spec *PropSpec, jobs []Job, results []*jobResult, 
 		"seed":        o.Seed,
 		"level":       "model_checking",
 		"coverage":    cov,
-		"assumptions": spec.Assumptions,
+		"assumptions": append([]string{
+			"go/ssa (golang.org/x/tools v0.29.0) faithfully represents /repo's working tree; int is 64 bits (amd64)",
+			"engine instruction semantics and the stubs listed under coverage.stubs are sound (checked on every run by executing solver witnesses and random inputs on both the engine and the real build)",
+			"z3 answers are correct; unknown/timeout is reported as inconclusive, never as success",
+		}, spec.Assumptions...),
 		"wall_s":      round3(wall.Seconds()),
 		"violations":  countConfirmed(viols),
 	}
